@@ -220,6 +220,13 @@ OVERRIDES = {
          "returns exactly the (namespace, full name) pair the specification's 'Names' rules prescribe. Level therefore exploration."),
    note="Oracle: spec/schema.py (written from the Avro specification and the property text); two defects fixed (decimal precision 0; union-typed field defaults / bool as int default).",
    technique="bounded differential checking against an independent schema parser; contract-based deductive verification of the name rule"),
+ "C12": dict(cat="exploration", design="0.3, 0.10, 7/C12",
+   text=("Bounded stand-in (labelled bounded, never counted as proved): idempotence (same object returned); raw / parsed / "
+         "piecewise-parsed forms across binary, container, JSON, validate, canonical form and generate. Deductive piece only: on an "
+         "already parsed schema parse_schema returns the schema unchanged and merges its name table into the caller's, entry by entry. "
+         "Level therefore exploration."),
+   note="Known finding KF05 (piecewise-parsed schemas keep bare references) is excluded by predicate. Data values have no object identity in the logic.",
+   technique="bounded differential checking of the three schema forms; contract-based deductive verification of the already-parsed path"),
  "C13": dict(cat="other", design="0.3, 0.10, 7/C13",
    text=("Deductive: _to_parsing_canonical_form (the recursive writer behind to_parsing_canonical_form) appends exactly PCF(schema) "
          "for every parsed schema -- PCF being the Avro specification's transformation written as specification functions "
